@@ -322,6 +322,12 @@ pub fn run(rep: &mut Report) {
         j_convert(&sub[(j / m) as usize], &sub[(j % m) as usize], x, &leap, out)
     });
     sweep(rep, "c12.sort", 3, |i, out| j_sort(i, deep, &pts, out));
+    // order independence (depth-2 operation sequences on one thread): comparisons of 64 pairs in every order
+    {
+        let pick: Vec<Pt> = pts.iter().copied().step_by((pts.len() / 16).max(1)).take(16).collect();
+        let np = pick.len() as u64;
+        crate::engine::order_pairs(rep, "c12.order", (np * np).min(64), |i, out| j_pair(&pick[((i * 5) % np) as usize], &pick[((i * 11 + 3) % np) as usize], out));
+    }
     // far range, same scale: near both ends of the representable range (where conversions to another scale saturate)
     // two epochs of one scale are still ordered by their counts
     let mut far: Vec<i128> = vec![];
